@@ -66,7 +66,7 @@ def run_shard(ctx):
         storegen.small_scope_cases(4 if thorough else 3), ex, stats, findings=ctx.findings,
         shard=ctx.shard, nshards=ctx.nshards, deadline_s=_left(ctx, 0.5))
     stats.extra["exhaustive_sequences"] = stats.evaluations
-    n = 1500 if thorough else 110
+    n = 5000 if thorough else 110
     core.hyp_search(storegen.history_strategy(80 if thorough else 30, overrides=True), ex, stats,
                     max_examples=n, seed=core.hash64(ctx.seed, ID, ctx.shard), findings=ctx.findings,
                     shrink=True, deadline_s=_left(ctx, 1.0))
